@@ -145,7 +145,7 @@ def impl(case):
         except (anytree.LoopError, anytree.TreeError):
             pass
     lab_by_id = {id(o): i for i, o in enumerate(objs)}
-    has_slots = any(k in ("light", "lightmixed") for k in kinds)
+    has_slots = any(k.startswith("light") for k in kinds)   # LightNodeMixin itself declares __slots__
     results = []
     reach_sets = []
     for e, entry in enumerate(objs):
